@@ -179,7 +179,7 @@ def _unbounded(reg):
     return bool(R.x_in(reg, (F(10**6), F(10**6 + 1))))
 
 
-PAIRS_QUICK = [("big", "square"), ("penta", "unit"), ("hollow", "unit"), ("inv:square", "inv:big"), ("two", "unit"), ("hollow", "hollow2"), ("inv:ell", "inv:unit"), ("youa", "bar"), ("ell", "notchtri")]
+PAIRS_QUICK = [("big", "square"), ("penta", "unit"), ("hollow", "unit"), ("inv:square", "inv:big"), ("two", "unit"), ("hollow", "hollow2"), ("inv:ell", "inv:unit"), ("youa", "bar"), ("ell", "notchtri"), ("inv:two", "unit")]
 PAIRS_THOROUGH = PAIRS_QUICK + [("ell", "unit"), ("you", "small"), ("inv:hollow", "unit"), ("inv:two", "inv:big"), ("framedot", "unit"), ("inv:ell", "inv:big"),
                                 ("big", "two"), ("hollow", "two"), ("inv:unit", "hollow"), ("quad", "tri")]
 
